@@ -95,5 +95,7 @@ MUTANTS = [
     ("C20", "detect", GQL, "custom_scalars = {**get_extra_scalar_strategies(), **CUSTOM_SCALARS}", "custom_scalars = {**CUSTOM_SCALARS, **get_extra_scalar_strategies()}", "built-in scalars override registered ones"),
     ("C20", "detect", GQL, "allow_null=generation_config.graphql_allow_null,", "allow_null=True,", "allow_null ignored"),
     ("C20", "detect", GQL, "fields=[definition.field_name],", "fields=None,", "all fields selected"),
+    ("C20", "detect", GQL, "            (RootType.MUTATION, schema.mutation_type),\n        ):\n            if operation_type is None:", "            (RootType.MUTATION, schema.mutation_type),\n            (RootType.MUTATION, schema.subscription_type),\n        ):\n            if operation_type is None:", "subscription fields offered as mutations"),
+    ("C20", "detect", GQL, "                            if not self._should_skip(dummy_operation):\n                                statistic.operations.selected += 1", "                            statistic.operations.selected += 1", "statistic counts deselected operations as selected"),
     ("C20", "quiet", GQL, "    hook_context = HookContext(operation)\n    custom_scalars = {**get_extra_scalar_strategies(), **CUSTOM_SCALARS}\n", "    custom_scalars = {**get_extra_scalar_strategies(), **CUSTOM_SCALARS}\n    hook_context = HookContext(operation)\n", "independent statements reordered"),
 ]
